@@ -1,4 +1,322 @@
-/-! Lp: executable models (no Mathlib imports). -/
+import Solvor.Gen.Kernels
+import Solvor.Gen.LpConsts
+/-!
+Lp: executable models (no Mathlib imports).
+
+* spec-side data and Bool checkers (`LP`, `chkFeasible`, `chkOptimal`, `chkInfeasible`,
+  `chkUnbounded`, tolerance checkers) – the theorems in `Theorems.lean` talk about these;
+* `solveLp`: mirror of `solvor/simplex.py` (`solve_lp`, `_phase1`, `_phase2`, `_pivot`, `_extract`)
+  over core `Rat`, dense tableau, Bland's rule, `eps` and `max_iter` exactly where the code uses
+  them; it additionally reads a certificate off the final tableau (dual vector / Farkas vector /
+  vertex + ray).
+-/
 namespace Solvor.Lp
+open Solvor.Gen (Status)
+
+abbrev Vec := List Rat
+abbrev Mat := List (List Rat)
+
+/-! ### Spec side: problems, index sums, checkers -/
+
+/-- `minimise c·x  s.t.  A x ≤ b, x ≥ 0` (the sign flip for `minimize=False` is applied by the
+caller: `c` is always the vector that is minimised). `m = b.length`, `n = c.length`. -/
+structure LP where
+  A : Mat
+  b : Vec
+  c : Vec
+  deriving Repr, Inhabited
+
+def LP.m (P : LP) : Nat := P.b.length
+def LP.n (P : LP) : Nat := P.c.length
+
+/-- `∑_{k<n} f k`. -/
+def sumTo : Nat → (Nat → Rat) → Rat
+  | 0, _ => 0
+  | k + 1, f => sumTo k f + f k
+
+/-- `∀ k<n, p k`. -/
+def allTo : Nat → (Nat → Bool) → Bool
+  | 0, _ => true
+  | k + 1, p => allTo k p && p k
+
+def vget (v : Vec) (j : Nat) : Rat := v.getD j 0
+def LP.a (P : LP) (i j : Nat) : Rat := (P.A.getD i []).getD j 0
+
+def absR (a : Rat) : Rat := if a < 0 then -a else a
+
+/-- `(A x)_i`. -/
+def LP.rowDot (P : LP) (x : Vec) (i : Nat) : Rat := sumTo P.n fun j => P.a i j * vget x j
+/-- `(Aᵀ y)_j`. -/
+def LP.colDot (P : LP) (y : Vec) (j : Nat) : Rat := sumTo P.m fun i => vget y i * P.a i j
+def LP.objAt (P : LP) (x : Vec) : Rat := sumTo P.n fun j => vget P.c j * vget x j
+def LP.rhsDot (P : LP) (y : Vec) : Rat := sumTo P.m fun i => vget y i * vget P.b i
+
+/-- `x ≥ 0`, `A x ≤ b`. -/
+def chkFeasible (P : LP) (x : Vec) : Bool :=
+  allTo P.n (fun j => decide (0 ≤ vget x j)) && allTo P.m (fun i => decide (P.rowDot x i ≤ vget P.b i))
+
+/-- Optimality certificate: `x` feasible, `y ≥ 0`, `c + Aᵀy ≥ 0`, `c·x = −y·b`. -/
+def chkOptimal (P : LP) (x y : Vec) : Bool :=
+  chkFeasible P x && allTo P.m (fun i => decide (0 ≤ vget y i)) &&
+  allTo P.n (fun j => decide (0 ≤ vget P.c j + P.colDot y j)) &&
+  decide (P.objAt x = -P.rhsDot y)
+
+/-- Farkas certificate: `y ≥ 0`, `Aᵀy ≥ 0`, `y·b < 0`. -/
+def chkInfeasible (P : LP) (y : Vec) : Bool :=
+  allTo P.m (fun i => decide (0 ≤ vget y i)) && allTo P.n (fun j => decide (0 ≤ P.colDot y j)) &&
+  decide (P.rhsDot y < 0)
+
+/-- Unboundedness certificate: `x` feasible, `d ≥ 0`, `A d ≤ 0`, `c·d < 0`. -/
+def chkUnbounded (P : LP) (x d : Vec) : Bool :=
+  chkFeasible P x && allTo P.n (fun j => decide (0 ≤ vget d j)) &&
+  allTo P.m (fun i => decide (P.rowDot d i ≤ 0)) && decide (P.objAt d < 0)
+
+/-- Feasibility within a tolerance: `x ≥ −tol`, `A x ≤ b + tol`. -/
+def chkFeasTol (P : LP) (tol : Rat) (x : Vec) : Bool :=
+  allTo P.n (fun j => decide (-tol ≤ vget x j)) &&
+  allTo P.m (fun i => decide (P.rowDot x i ≤ vget P.b i + tol))
+
+/-- `|c·x − obj| ≤ tol`. -/
+def chkObjAt (P : LP) (tol : Rat) (x : Vec) (obj : Rat) : Bool := decide (absR (P.objAt x - obj) ≤ tol)
+
+/-- `|obj − opt| ≤ tol·(1+|opt|)`. -/
+def chkObjNear (tol obj opt : Rat) : Bool := decide (absR (obj - opt) ≤ tol * (1 + absR opt))
+
+/-- squared 2-norm of the positive part of `A x − b` (the least primal residual `‖Ax+s−b‖²` over
+slacks `s ≥ 0`). -/
+def LP.resid2 (P : LP) (x : Vec) : Rat :=
+  sumTo P.m fun i => let r := P.rowDot x i - vget P.b i; if 0 < r then r * r else 0
+
+/-- interior point `FEASIBLE`: `x ≥ 0` and primal residual `≤ r`. -/
+def chkResidual (P : LP) (r : Rat) (x : Vec) : Bool :=
+  allTo P.n (fun j => decide (0 ≤ vget x j)) && decide (P.resid2 x ≤ r * r)
+
+/-- componentwise `|x_j − x'_j| ≤ tol` and equal length. -/
+def vecNear (tol : Rat) (x x' : Vec) : Bool :=
+  x.length == x'.length && allTo x.length fun j => decide (absR (vget x j - vget x' j) ≤ tol)
+
+/-! ### Mirror of `solvor/simplex.py` -/
+
+/-- The tableau: `rows` are `matrix[0..m-1]`, `obj` is `matrix[-1]`; every row ends with the
+right-hand side. `basis_set` of the code is always `set(basis)`. -/
+structure Tab where
+  rows : List (List Rat)
+  obj : List Rat
+  basis : List Nat
+  deriving Repr, Inhabited
+
+def lastR (r : List Rat) : Rat := r.getLastD 0
+
+/-- `_pivot(matrix, m, row, col, eps)`. -/
+def pivot (eps : Rat) (t : Tab) (r col : Nat) : Tab :=
+  let prow0 := t.rows.getD r []
+  let pv := prow0.getD col 0
+  if absR pv < eps then t            -- "Numerical instability, skip pivot"
+  else
+    let inv := 1 / pv
+    let prow := prow0.map (· * inv)
+    let elim (row : List Rat) : List Rat :=
+      let f := row.getD col 0
+      if absR f > eps then List.zipWith (fun a p => a - f * p) row prow else row
+    { t with rows := t.rows.mapIdx (fun i row => if i = r then prow else elim row), obj := elim t.obj }
+
+/-- Bland entering rule: smallest non-basic column with reduced cost `< -eps`. -/
+def findEnter (eps : Rat) (t : Tab) : Option Nat :=
+  (List.range (t.obj.length - 1)).find? fun j => !t.basis.contains j && decide (t.obj.getD j 0 < -eps)
+
+/-- The ratio-test loop of `_phase2` (state: `leave`, `min_ratio`; `none` = `-1` / `inf`). -/
+def leaveStep (eps : Rat) (t : Tab) (enter : Nat) (st : Option Nat × Option Rat) (i : Nat) :
+    Option Nat × Option Rat :=
+  let row := t.rows.getD i []
+  let a := row.getD enter 0
+  if a > eps then
+    let ratio := lastR row / a
+    match st with
+    | (_, none) => (some i, some ratio)              -- `ratio < inf - eps`
+    | (leave, some mr) =>
+      if ratio < mr - eps then (some i, some ratio)
+      else if absR (ratio - mr) ≤ eps then
+        match leave with
+        | none => (some i, some mr)
+        | some l => if t.basis.getD i 0 < t.basis.getD l 0 then (some i, some mr) else st
+      else st
+  else st
+
+def findLeave (eps : Rat) (t : Tab) (enter : Nat) : Option Nat :=
+  ((List.range t.rows.length).foldl (leaveStep eps t enter) (none, none)).1
+
+def setBasis (t : Tab) (r col : Nat) : Tab := { t with basis := t.basis.set r col }
+
+structure P2 where
+  status : Status
+  iters : Nat
+  tab : Tab
+  enter : Option Nat      -- the entering column when UNBOUNDED
+  deriving Inhabited
+
+/-- `_phase2`: `fuel` = remaining `max_iter`, `it` = the loop variable `iteration`. -/
+def phase2 (eps : Rat) : Nat → Nat → Tab → P2
+  | 0, it, t => ⟨.MAX_ITER, it, t, none⟩
+  | fuel + 1, it, t =>
+    match findEnter eps t with
+    | none => ⟨.OPTIMAL, it, t, none⟩
+    | some e =>
+      match findLeave eps t e with
+      | none => ⟨.UNBOUNDED, it, t, some e⟩
+      | some l => phase2 eps fuel (it + 1) (setBasis (pivot eps t l e) l e)
+
+/-- "an exact tableau entry lies within `1e-6` of an `eps` threshold": a non-zero entry `v` with
+`||v| − eps| < 1e-6` (exact zeros are far from the threshold relative to rounding noise). -/
+def nearThr (eps v : Rat) : Bool := v != 0 && decide (absR (absR v - eps) < 1 / 1000000)
+
+def tabNear (eps : Rat) (t : Tab) : Bool :=
+  t.rows.any (·.any (nearThr eps)) || t.obj.any (nearThr eps)
+
+/-- ratio-test ties that are not exact: two candidate ratios differ by a non-zero amount `< 1e-6` -/
+def ratiosNear (eps : Rat) (t : Tab) (enter : Nat) : Bool :=
+  let rs := t.rows.filterMap fun row =>
+    let a := row.getD enter 0
+    if a > eps then some (lastR row / a) else none
+  rs.any fun r => rs.any fun r' => r != r' && decide (absR (r - r') < 1 / 1000000 + eps)
+
+/-- Monitor for R_trace only (not part of the mirror): does any tableau visited by `phase2` from
+`t` have an entry or a ratio difference near a threshold? -/
+def phase2Near (eps : Rat) : Nat → Tab → Bool
+  | 0, t => tabNear eps t
+  | fuel + 1, t =>
+    tabNear eps t ||
+    match findEnter eps t with
+    | none => false
+    | some e =>
+      ratiosNear eps t e ||
+      match findLeave eps t e with
+      | none => false
+      | some l => phase2Near eps fuel (setBasis (pivot eps t l e) l e)
+
+def zeros (k : Nat) : List Rat := List.replicate k 0
+def unitV (k i : Nat) : List Rat := (List.range k).map fun j => if j = i then 1 else 0
+def subRow (a b : List Rat) (f : Rat) : List Rat := List.zipWith (fun x y => x - f * y) a b
+
+/-- Result of `_phase1`: status (`OPTIMAL`/`INFEASIBLE`), iterations, tableau (artificial columns
+removed and objective row restored when feasible) and the final phase-1 objective row (with the
+artificial columns) from which the Farkas vector is read. -/
+structure P1 where
+  status : Status
+  iters : Nat
+  tab : Tab
+  p1obj : List Rat
+  near : Bool := false     -- R_trace monitor only
+  deriving Inhabited
+
+/-- Pivot out artificials still basic after phase 1 (`for i in range(m): if basis[i] in art_cols`). -/
+def driveOut (eps : Rat) (nm : Nat) (t : Tab) : Tab :=
+  (List.range t.rows.length).foldl (fun t i =>
+    if t.basis.getD i 0 ≥ nm then
+      let row := t.rows.getD i []
+      match (List.range nm).find? fun j => !t.basis.contains j && decide (absR (row.getD j 0) > eps) with
+      | some j => setBasis (pivot eps t i j) i j
+      | none => t
+    else t) t
+
+/-- `_phase1(matrix, basis, basis_set, m, n, eps, max_iter)`. -/
+def phase1 (eps : Rat) (maxIter n m : Nat) (t : Tab) : P1 :=
+  let nm := n + m
+  -- rows with `matrix[i][-1] < -eps`, in order; the k-th gets artificial column `nm + k`
+  let flipped := (List.range m).filter fun i => decide (lastR (t.rows.getD i []) < -eps)
+  let K := flipped.length
+  if K = 0 then ⟨.OPTIMAL, 0, t, t.obj, false⟩ else
+  let rows1 := t.rows.mapIdx fun i row =>
+    match flipped.idxOf? i with
+    | some k => (row.take nm).map (fun v => v * -1) ++ unitV K k ++ [lastR row * -1]
+    | none => row.take nm ++ zeros K ++ [lastR row]
+  let basis1 := t.basis.mapIdx fun i bv =>
+    match flipped.idxOf? i with
+    | some k => nm + k
+    | none => bv
+  let ncols := nm + K + 1
+  let obj0 : List Rat := (List.range ncols).map fun j => if nm ≤ j ∧ j < nm + K then 1 else 0
+  let obj1 := (List.range m).foldl (fun o i =>
+    if basis1.getD i 0 ≥ nm then subRow o (rows1.getD i []) 1 else o) obj0
+  let r := phase2 eps maxIter 0 ⟨rows1, obj1, basis1⟩
+  let near := phase2Near eps maxIter ⟨rows1, obj1, basis1⟩
+  let t2 := r.tab
+  if lastR t2.obj < -eps then ⟨.INFEASIBLE, r.iters, t2, t2.obj, near⟩ else
+  let t3 := driveOut eps nm t2
+  -- remove the artificial columns, restore the original objective row
+  let rows4 := t3.rows.map fun row => row.take nm ++ [lastR row]
+  let obj4 := (List.range m).foldl (fun o i =>
+    let var := t3.basis.getD i 0
+    if var < nm then
+      let cost := o.getD var 0
+      if absR cost > eps then subRow o (rows4.getD i []) cost else o
+    else o) t.obj
+  ⟨.OPTIMAL, r.iters, ⟨rows4, obj4, t3.basis⟩, t2.obj, near || tabNear eps t3⟩
+
+/-- What `solve_lp` returns plus the certificate read off the final tableau.
+`cert` : OPTIMAL → dual vector `y`; INFEASIBLE → Farkas vector; UNBOUNDED → ray `d` (the vertex
+is `x`); otherwise `[]`.  `objective = none` stands for `float("inf")`. -/
+structure LpOut where
+  status : Status
+  x : Vec
+  objective : Option Rat
+  iters : Nat
+  cert : Vec
+  phase1 : Bool
+  near : Bool := false     -- R_trace monitor only
+  deriving Inhabited
+
+/-- `_extract`'s solution vector. -/
+def extractX (t : Tab) (n : Nat) : Vec :=
+  (List.range n).map fun j =>
+    match t.basis.idxOf? j with
+    | some i => lastR (t.rows.getD i [])
+    | none => 0
+
+/-- Ray of an UNBOUNDED tableau: entering variable `+1`, basic variable of row `i` moves by
+`−matrix[i][enter]`; restricted to the structural variables. -/
+def extractRay (t : Tab) (n enter : Nat) : Vec :=
+  (List.range n).map fun j =>
+    if j = enter then 1 else
+    match t.basis.idxOf? j with
+    | some i => -((t.rows.getD i []).getD enter 0)
+    | none => 0
+
+/-- `solve_lp(c, A, b, minimize=…, eps=…, max_iter=…)`; the reported objective is in the caller's
+sense (`-obj` when maximising), the certificate is for `minimise w·x`, `w = ±c`. -/
+def solveLp (c : Vec) (A : Mat) (b : Vec) (minimize : Bool) (eps : Rat) (maxIter : Nat) : LpOut :=
+  let m := b.length
+  let n := c.length
+  let w := if minimize then c else c.map (fun v => -v)
+  let rows := (List.range m).map fun i => (A.getD i []) ++ unitV m i ++ [b.getD i 0]
+  let t0 : Tab := ⟨rows, w ++ zeros (m + 1), (List.range m).map (· + n)⟩
+  let slackPart (o : List Rat) : Vec := (o.drop n).take m
+  let fin (iters0 : Nat) (ph1 : Bool) (near : Bool) (r : P2) : LpOut :=
+    let x := extractX r.tab n
+    let o := -(lastR r.tab.obj)
+    let o := if minimize then o else -o
+    let cert := match r.status, r.enter with
+      | .OPTIMAL, _ => slackPart r.tab.obj
+      | .UNBOUNDED, some e => extractRay r.tab n e
+      | _, _ => []
+    ⟨r.status, x, some o, iters0 + r.iters, cert, ph1, near⟩
+  if (List.range m).any fun i => decide (lastR (rows.getD i []) < -eps) then
+    let p := phase1 eps maxIter n m t0
+    if p.status != .OPTIMAL then
+      ⟨.INFEASIBLE, zeros n, none, p.iters, slackPart p.p1obj, true, p.near⟩
+    else fin p.iters true (p.near || phase2Near eps (maxIter - p.iters) p.tab)
+      (phase2 eps (maxIter - p.iters) 0 p.tab)
+  else fin 0 false (phase2Near eps maxIter t0) (phase2 eps maxIter 0 t0)
+
+/-- the LP that `solveLp`'s certificate is about -/
+def mkLP (c : Vec) (A : Mat) (b : Vec) (minimize : Bool) : LP :=
+  ⟨A, b, if minimize then c else c.map (fun v => -v)⟩
+
+/-- Evaluate the verified checker that belongs to the model's verdict on the model's certificate. -/
+def certifies (P : LP) (o : LpOut) : Bool :=
+  match o.status with
+  | .OPTIMAL => chkOptimal P o.x o.cert
+  | .INFEASIBLE => chkInfeasible P o.cert
+  | .UNBOUNDED => chkUnbounded P o.x o.cert
+  | _ => false
 
 end Solvor.Lp
